@@ -60,7 +60,10 @@ let rd_scenario () =
   let tw = rd_list rd_cond in let mons = rd_list next_nat in
   let reqs = rd_list next_nat in
   let comp = (match next () with "N" -> None | "Y" -> Some (rd_stmts ()) | s -> failwith ("comp " ^ s)) in
-  { s_pre = pre; s_inv = inv; s_limit = lim; s_termwhen = tw; s_monitors = mons; s_reqs = reqs; s_compose = comp }
+  let recs = rd_list next_nat in
+  let tsim = rd_list (fun () -> let i = next_nat () in let c = rd_cond () in (i, c)) in
+  { s_pre = pre; s_inv = inv; s_limit = lim; s_termwhen = tw; s_monitors = mons; s_reqs = reqs; s_compose = comp;
+    s_records = recs; s_termsim = tsim }
 let rd_program () =
   let bs = rd_list rd_behavior in
   let ms = rd_list rd_stmts in
